@@ -1197,7 +1197,9 @@ class EigenvalueCorrectedShampooPreconditionerList(
                 strict=True,
             ):
                 factor_eigenvectors = kronecker_factors.factor_matrices_eigenvectors
-                if factor_eigenvectors and factor_eigenvectors[0].any():
+                if factor_eigenvectors and all(
+                    eigenvectors.any() for eigenvectors in factor_eigenvectors
+                ):
                     grad = self._precondition_grad(
                         grad=grad,
                         preconditioned_dims_selector=preconditioned_dims_selector,
@@ -1241,7 +1243,9 @@ class EigenvalueCorrectedShampooPreconditionerList(
             ):
                 factor_eigenvectors = kronecker_factors.factor_matrices_eigenvectors
                 corrected_eigenvalues = kronecker_factors.corrected_eigenvalues
-                use_eigenbasis = factor_eigenvectors and factor_eigenvectors[0].any()
+                use_eigenbasis = factor_eigenvectors and all(
+                    eigenvectors.any() for eigenvectors in factor_eigenvectors
+                )
                 grad = masked_grad.clone()
                 if use_eigenbasis:
                     # Convert to eigenbasis of Shampoo factor matrices.
